@@ -3248,10 +3248,12 @@ class Qube(object):
                                 'result' % type(self).__name__)
 
             self._require_inplace_shape(arg._shape_, '*=')
+            new_units = Units.mul_units(self._units_, arg._units_)
+            self._require_inplace_units(new_units, '*=')
             new_derivs = self._mul_derivs(arg)  # if this raises exception, stop
             self._values_ *= arg_values         # on exception, object unchanged
             self._mask_ = self._merged_mask(arg._mask_)
-            self._units_ = Units.mul_units(self._units_, arg._units_)
+            self._units_ = new_units
             self.insert_derivs(new_derivs)
 
             self._cache_.clear()
@@ -3602,9 +3604,11 @@ class Qube(object):
                                                     self._rank_ * (1,))
             self._require_inplace_shape(arg._shape_, '//=')
             self._require_inplace_kind(div_values, '//=')
+            new_units = Units.div_units(self._units_, arg._units_)
+            self._require_inplace_units(new_units, '//=')
             self._values_ //= div_values
             self._mask_ = self._merged_mask(divisor._mask_)
-            self._units_ = Units.div_units(self._units_, arg._units_)
+            self._units_ = new_units
             self.delete_derivs()
 
             self._cache_.clear()
@@ -3737,9 +3741,11 @@ class Qube(object):
                                                     self._rank_ * (1,))
             self._require_inplace_shape(arg._shape_, '%=')
             self._require_inplace_kind(div_values, '%=')
+            new_units = Units.div_units(self._units_, arg._units_)
+            self._require_inplace_units(new_units, '%=')
             self._values_ %= div_values
             self._mask_ = self._merged_mask(divisor._mask_)
-            self._units_ = Units.div_units(self._units_, arg._units_)
+            self._units_ = new_units
 
             self._cache_.clear()
             return self
@@ -4528,6 +4534,16 @@ class Qube(object):
             raise ValueError('incompatible shapes for %s: %s, %s'
                              % (self._opstr(op), self._shape_,
                                 tuple(arg_shape)))
+
+    #===========================================================================
+    def _require_inplace_units(self, units, op):
+        """Raise a TypeError if an in-place operation would give units to an
+        object of a class that disallows them.
+        """
+
+        if not self.UNITS_OK and not Units.is_unitless(units):
+            raise TypeError('%s units are disallowed: %s'
+                            % (type(self).__name__, str(units)))
 
     #===========================================================================
     def _require_inplace_kind(self, arg, op):
